@@ -87,12 +87,16 @@ def run_doc_pairs(case: dict) -> core.CaseResult:
         twin = again.get((mode, p))
         if twin is not None:
             res.transitions += 1
-            if not (m == twin) or not (twin == m):
-                res.fail(f'C20/parsing-twice-gives-unequal-models[{type(m).__name__}]', where + f'{"/".join(p)} (mode {mode}) differs between two parses')
-                return res
-            c = copy.deepcopy(m)
-            if not (c == m) or not (m == c):
-                res.fail(f'C20/deepcopy-unequal[{type(m).__name__}]', where + f'{"/".join(p)} deepcopy compares unequal')
+            try:
+                if not (m == twin) or not (twin == m) or not (m == m):
+                    res.fail(f'C20/parsing-twice-gives-unequal-models[{type(m).__name__}]', where + f'{"/".join(p)} (mode {mode}) differs between two parses')
+                    return res
+                c = copy.deepcopy(m)
+                if not (c == m) or not (m == c):
+                    res.fail(f'C20/deepcopy-unequal[{type(m).__name__}]', where + f'{"/".join(p)} deepcopy compares unequal')
+                    return res
+            except Exception as e:  # noqa
+                res.fail(f'C20/compare-raises[{type(m).__name__}]', where + f'comparing {"/".join(p)} with its twin / copy raises {type(e).__name__}: {e}')
                 return res
     for (m1, p1, a), (m2, p2, b) in itertools.combinations(pool, 2):
         if not judge_pair(a, b, res, where + f'{"/".join(p1)}@{m1} vs {"/".join(p2)}@{m2}: ',
